@@ -46,10 +46,10 @@ def oracle_C01(col):
         try:
             tags = impl.child_tags(o.value)
         except ET.ParseError:
-            col.add(T, 'invalid-child-sequence', [pre.knames, opj(op), 'not-well-formed'], pre, op)
+            col.add(T, 'invalid-child-sequence', [pre.names, opj(op), 'not-well-formed'], pre, op)
             return
         if not nfa(T).accepts(tags):
-            col.add(T, 'invalid-child-sequence', [pre.knames, opj(op), tags], pre, op, observed=tags)
+            col.add(T, 'invalid-child-sequence', [pre.names, opj(op), tags], pre, op, observed=tags)
         else:
             col.stats['valid_outputs'] += 1
     return f
@@ -61,7 +61,7 @@ def oracle_C06(col):
     def f(T, pre, op, st, o):
         el = st.el
         exp = [st.made[i] for i in st.model]
-        key = [pre.knames, opj(op)] + ([] if el.xsd_check else ['unchecked'])
+        key = [pre.names, opj(op)] + ([] if el.xsd_check else ['unchecked'])
         r_ins = impl.call(lambda: list(el.get_children(ordered=False)))
         r_ord = impl.call(lambda: list(el.get_children(ordered=True)))
         col.stats['states_checked'] += 1
@@ -123,7 +123,7 @@ def oracle_C07(col):
         col.stats['successful_additions_judged'] += 1
         post = st.names()
         if not A.completable(post):
-            col.add(T, 'dead-end-accepted', [pre.knames, opj(op)], pre, op, observed=post)
+            col.add(T, 'dead-end-accepted', [pre.names, opj(op)], pre, op, observed=post)
     return f
 
 
@@ -141,7 +141,7 @@ def oracle_C12b(col):
         # "a child is never rejected while it, together with the children already present, can still be arranged
         # into (part of) a valid sequence" - judged only from states reached by accepted additions
         if A.completable(pre.names) and A.completable(pre.names + [op[1]]):
-            col.add(T, 'compatible-child-rejected', [pre.knames, op[1]], pre, op, observed=o.as_json())
+            col.add(T, 'compatible-child-rejected', [pre.names, op[1]], pre, op, observed=o.as_json())
         else:
             col.stats['rejections_justified'] += 1
     return f
@@ -172,9 +172,9 @@ def oracle_C19(col):
             col.stats['exc:' + o.exc] += 1
         k = classify_exception(o, op)
         if k:
-            col.add(T, k, [pre.knames, opj(op)], pre, op, observed=o.as_json())
+            col.add(T, k, [pre.names, opj(op)], pre, op, observed=o.as_json())
         if o.output:
-            col.add(T, 'printed', [pre.knames, opj(op)], pre, op, observed=o.output[:200])
+            col.add(T, 'printed', [pre.names, opj(op)], pre, op, observed=o.output[:200])
     return f
 
 
